@@ -275,11 +275,11 @@ fn run_history(ops: &[Op]) -> String {
 
 // ---------------------------------------------------------------- generation
 
-/// values for native commands: anything
+/// odd values (all commands)
 const ODD_VALUES: [&str; 30] = [
     "", "a", "b", "x y", " ", "  two  ", "ü", "日本語", "🦆", "handle:abcdefghijklmnopqrst", "handle:", "handle:x1", "true", "false", "0", "1", "-1", "$x", "${a0_0}", "%{o0}", "# c", "\"q\"", "a\nb", "\r", "=z", "\\", "\\${x}", "\t", "a,b", "-r",
 ];
-/// values that may reach script-implemented commands (see `rule`)
+/// word-like values
 const SAFE_VALUES: [&str; 14] = ["a", "b", "c", "x y", "A_1.-", "ü", "日本語", "handle:abcdefghijklmnopqrst", "7", "0", "key 1", "Z", "é è", "long-value_with.many-parts"];
 const INDEXES: [&str; 14] = ["-1", "x", "", "+1", "1.0", " 1", "1 ", "18446744073709551616", "18446744073709551615", "007", "+", "-0", "٣", "0x1"];
 const RANGE_ENDS: [&str; 12] = ["0", "1", "3", "-2", "+2", "5", "x", "", "9223372036854775808", "-9223372036854775808", "1.5", "-"];
@@ -667,18 +667,18 @@ impl<'a> Gen<'a> {
 }
 
 fn gen_history(rng: &mut Rng, tier: Tier) -> Case {
-    // two families: native commands only with arbitrary values; all commands with safe values
+    // two families: native commands only; all 36 commands (same value pools)
     let with_scripts = rng.chance(1, 2);
     let maxlen = if tier == Tier::Quick { 40 } else { 80 };
     let len = 1 + rng.below(maxlen);
-    let mut g = Gen { rng, ops: vec![], tracks: vec![], safe: with_scripts, with_scripts, keys_used: vec![], tags: vec![] };
+    let mut g = Gen { rng, ops: vec![], tracks: vec![], safe: false, with_scripts, keys_used: vec![], tags: vec![] };
     while g.ops.len() < len {
         g.step();
     }
     let mut tags = g.tags.clone();
     tags.sort();
     tags.dedup();
-    tags.push(if with_scripts { "all-commands-safe-values" } else { "native-odd-values" });
+    tags.push(if with_scripts { "all-36-commands" } else { "native-commands-only" });
     Case { req: enc_ops(&g.ops), in_domain: true, nontrivial: g.ops.len() >= 5, tags }
 }
 
@@ -790,8 +790,8 @@ fn fixed_histories() -> Vec<Case> {
             "verbatim",
         );
     }
-    // safe values through the script commands
-    for v in SAFE_VALUES.iter() {
+    // every pool value through the script-implemented commands
+    for v in SAFE_VALUES.iter().chain(ODD_VALUES.iter()) {
         add(
             vec![
                 ("array", vec![lit("first"), lit(v), lit("last")]),
@@ -878,7 +878,7 @@ impl Prop for C12Prop {
         "C12"
     }
     fn rule(&self) -> &'static str {
-        "Histories of 1..40 (quick) / 1..80 (thorough) collection commands run from an empty handle table through the real SDK (run_instruction, every value passed in a variable as ${v}), at most 6 live handles of mixed kinds (arrays incl. range / map_keys / set_to_array / array_concat results, maps, sets, nested handles as values). Handle arguments: 65% live right kind, 15% live wrong kind, 10% released, 10% unknown / handle-looking / empty. Indexes inside, at and beyond the end, plus non-numeric / negative / signed / overflowing spellings. Two families: (a) native commands only, values from a pool with '', spaces, multi-byte, handle-looking strings, $ % # quotes CR LF TAB backslash leading '='; (b) all commands incl. the nine script-implemented ones with values restricted to [A-Za-z0-9 _.-] and multi-byte letters (the script commands re-serialise their values and inherit the known C09 defects for $ % # \" CR LF leading '=' and for the empty string; odd values go through native commands only). Fixed cases: every command x {array, map, set, released, unknown, empty handle} followed by a complete read-out; verbatim round trips of every pool value through array/map/set natives; all index spellings; range end points incl. i64 limits; recursive release over nesting, sharing, cycles and self reference. After each history the whole real handle table is read from Context.state (real handles renamed by first appearance, hash-ordered things sorted) and re-read through array_length/array_get, map_size/map_get, set_size/set_contains. The list made by map_keys / set_to_array is sorted in place by the harness (hash iteration order is unspecified). Non-trivial = at least 5 commands; distinct = distinct request."
+        "Histories of 1..40 (quick) / 1..80 (thorough) collection commands run from an empty handle table through the real SDK (run_instruction, every value passed in a variable as ${v}), at most 6 live handles of mixed kinds (arrays incl. range / map_keys / set_to_array / array_concat results, maps, sets, nested handles as values). Handle arguments: 65% live right kind, 15% live wrong kind, 10% released, 10% unknown / handle-looking / empty. Indexes inside, at and beyond the end, plus non-numeric / negative / signed / overflowing spellings. Values (cells, keys, set members, separators) from a pool with '', spaces, multi-byte text, handle-looking strings, true/false, numerals, $x ${..} %{..} # quotes CR LF TAB backslash leading '=' and word-like strings; they reach the native AND the nine script-implemented commands alike. Two families: (a) the 27 native commands only, (b) all 36 commands. Fixed cases: every command x {array, map, set, released, unknown, empty handle} followed by a complete read-out; verbatim round trips of every pool value through array/map/set natives; all index spellings; range end points incl. i64 limits; recursive release over nesting, sharing, cycles and self reference. After each history the whole real handle table is read from Context.state (real handles renamed by first appearance, hash-ordered things sorted) and re-read through array_length/array_get, map_size/map_get, set_size/set_contains. The list made by map_keys / set_to_array is sorted in place by the harness (hash iteration order is unspecified). Literal values of the form handle:<decimal> are not generated (that is the model's name for the k-th handle; real handles are renamed to it). Non-trivial = at least 5 commands; distinct = distinct request."
     }
     fn budget(&self, tier: Tier) -> usize {
         match tier {
